@@ -2297,6 +2297,7 @@ impl<E: Effect> Executor<E> {
                         crate::verif::emit(crate::verif::Event::SelectComplete {
                             pid,
                             source: src_idx,
+                            value: value.clone(),
                         });
                         return self.complete_select(pid, value);
                     }
@@ -2307,6 +2308,7 @@ impl<E: Effect> Executor<E> {
                         crate::verif::emit(crate::verif::Event::SelectComplete {
                             pid,
                             source: src_idx,
+                            value: value.clone(),
                         });
                         return self.complete_select(pid, value);
                     }
@@ -2325,6 +2327,7 @@ impl<E: Effect> Executor<E> {
                             crate::verif::emit(crate::verif::Event::SelectComplete {
                                 pid,
                                 source: src_idx,
+                                value: value.clone(),
                             });
                             return self.complete_select(pid, value);
                         }
